@@ -84,6 +84,10 @@ def run(ctx):
             (dict(hosts=["10.0.0.1"], rounds=3, triggers=trig, prelude=["ok|10.0.0.1|bad-sig+slow-close", "timer", "ok|10.0.0.1|ok"]), 2),
             (dict(hosts=["10.0.0.1"], rounds=4, triggers=trig, subscriptions=True, env=dict(delivery="bytes", frames=[7], http="chunked-lower")), 1),
             (dict(hosts=["10.0.0.1", "10.0.0.2"], rounds=3, triggers=trig, env=dict(delivery="3/4", frames=[40], http="upper")), 1),
+            # an accessory that accepts and then says nothing; close()/shutdown() while its RST is in the kernel but not yet seen by the loop
+            (dict(hosts=["10.0.0.1"], rounds=4, triggers=["close+rst", "shutdown+rst", "close", "drop", "zc-same"], behaviours=["ok", "mute", "mute-m3"], preemptive_triggers=False), 2),
+            # bursts of nudges while the connector sits in its back-off, then close / shutdown at every later point
+            (dict(hosts=["10.0.0.1"], rounds=3, triggers=["double-nudge", "close"], prelude=["refuse"], behaviours=["ok"], preemptive_triggers=False), 3),
             # shut down (from connected / from retrying): announcements and callers keep arriving afterwards
             (dict(hosts=["10.0.0.1"], rounds=4, triggers=trig, prelude=["ok|10.0.0.1|ok", "shutdown"]), 2),
             (dict(hosts=["10.0.0.1"], rounds=4, triggers=trig, prelude=["refuse", "shutdown"]), 2),
@@ -101,6 +105,7 @@ def run(ctx):
             (dict(hosts=["10.0.0.1"], rounds=5, triggers=trig, prelude=["ok|10.0.0.1|ok", "shutdown"]), 3),
             (dict(hosts=["10.0.0.1"], rounds=5, triggers=trig, prelude=["refuse", "shutdown"]), 3),
             (dict(hosts=["10.0.0.1"], rounds=4, triggers=trig, prelude=["ok|10.0.0.1|ok", "close", "shutdown"]), 3),
+            (dict(hosts=["10.0.0.1"], rounds=4, triggers=["double-nudge", "close", "shutdown", "drop"], prelude=["refuse"], behaviours=["ok", "auth-error"]), 3),
         ]
     work = plan(ctx, configs)
     ctx.bounds.update(configs=[dict(hosts=c["hosts"], rounds=c["rounds"], deviations=d) for c, d in configs])
